@@ -250,8 +250,18 @@ def rule_r3(ctx) -> List[R.Inst]:
                                 f"instead of exactly one", construct=f"{key} appends {sorted(counts)}"))
             continue
         # a fresh target per iteration
-        fresh = any(isinstance(n, ast.Assign) and isinstance(n.value, ast.Call) and
-                    cv.ty.kind(n.value)[0] == "chart" for n in lp.body)
+        made = [n for n in lp.body if isinstance(n, ast.Assign) and isinstance(n.value, ast.Call) and
+                cv.ty.kind(n.value)[0] == "chart"]
+        shallow = [n for n in made if not (cv.ty.kind(n.value.func)[0] == "type" or
+                                           (isinstance(n.value.func, (ast.Name, ast.Attribute)) and
+                                            unparse(n.value.func).split(".")[-1] == "deepcopy"))]
+        fresh = bool(made) and not shallow
+        if shallow:
+            insts.append(R.viol("C08.R3", key, cv.file, shallow[0].lineno,
+                                f"the per-chart target is made by '{unparse(shallow[0].value)}', a shallow copy: every target shares "
+                                f"the template's list container, so all converted charts end up with the lists of the last source chart",
+                                construct=unparse(shallow[0])))
+            continue
         if not fresh:
             insts.append(R.viol("C08.R3", key, cv.file, lp.lineno,
                                 "no fresh target chart is constructed per source chart", construct=f"{key} no ctor in loop"))
@@ -468,6 +478,13 @@ def _is_reflective_get(e) -> bool:
         isinstance(e, ast.Call) and isinstance(e.func, ast.Name) and e.func.id == "getattr")
 
 
+def _pjoin(a: str, b: str) -> str:
+    for k in ("foreign", "caller", "stripped"):
+        if k in (a, b):
+            return k
+    return "other"
+
+
 def prov(e, env: Dict[str, str]) -> str:
     """'foreign' | 'stripped' | 'other' for an expression in cast()."""
     if isinstance(e, ast.Name):
@@ -478,7 +495,7 @@ def prov(e, env: Dict[str, str]) -> str:
         return "foreign"
     if isinstance(e, ast.IfExp):
         a, b = prov(e.body, env), prov(e.orelse, env)
-        return "foreign" if "foreign" in (a, b) else ("stripped" if "stripped" in (a, b) else "other")
+        return _pjoin(a, b)
     if isinstance(e, ast.Call):
         # wrappers such as pd.Series(x) keep the index
         for a in e.args:
@@ -511,11 +528,16 @@ def rule_r8(ctx) -> List[R.Inst]:
                     narrowed = t.args[0].id
                 for k in set(e1) | set(e2):
                     a, b = e1.get(k, "other"), e2.get(k, "other")
-                    if k == narrowed and a == "stripped" and b == "foreign":
-                        env[k] = "stripped"   # a foreign value is a Series, so it took the stripping branch
+                    if k == narrowed and a == "stripped" and b in ("foreign", "caller"):
+                        env[k] = "stripped"   # a Series took the stripping branch; what is left is not a Series
                     else:
-                        env[k] = "foreign" if "foreign" in (a, b) else ("stripped" if "stripped" in (a, b) else "other")
+                        env[k] = _pjoin(a, b)
             elif isinstance(s, (ast.For, ast.While)):
+                # `for to_, from_ in mapping.items()`: the values are whatever the call sites put into the mapping
+                if isinstance(s, ast.For) and isinstance(s.iter, ast.Call) and isinstance(s.iter.func, ast.Attribute) and \
+                        s.iter.func.attr == "items" and isinstance(s.target, ast.Tuple) and len(s.target.elts) == 2 and \
+                        isinstance(s.target.elts[1], ast.Name):
+                    env[s.target.elts[1].id] = "caller"
                 run(s.body, env)
                 run(s.body, env)
             elif isinstance(s, ast.Expr):
@@ -539,7 +561,35 @@ def rule_r8(ctx) -> List[R.Inst]:
     insts = []
     for n, p in found:
         key = f"ConvertBase.cast.store[{n_uses} uses]"
-        if p == "foreign":
+        if p == "caller":
+            # the value is stored exactly as the call site wrote it: every non-constant mapping value must then be label-free
+            bad = []
+            for cv in convs(ctx):
+                for call, tgt, st in cv.casts:
+                    mp = call.args[2] if len(call.args) > 2 else next((k.value for k in call.keywords if k.arg == "mapping"), None)
+                    vals = []
+                    if isinstance(mp, ast.Call) and isinstance(mp.func, ast.Name) and mp.func.id == "dict":
+                        vals = [(k.arg, k.value) for k in mp.keywords]
+                    elif isinstance(mp, ast.Dict):
+                        vals = [(unparse(k), v) for k, v in zip(mp.keys, mp.values)]
+                    for name, v in vals:
+                        if isinstance(v, ast.Constant):
+                            continue
+                        kk = cv.ty.kind(v)
+                        txt = unparse(v)
+                        if kk[0] in ("series", "df") or (cv.src_param + ".") in txt and not _strips(v):
+                            bad.append((cv, call, name, txt))
+            if bad:
+                cv, call, name, txt = bad[0]
+                insts.append(R.viol("C08.R8", "ConvertBase.cast.store", file, n.lineno,
+                                    f"mapping values that are not field names are stored as passed; {cv.name} passes the Series "
+                                    f"'{txt[:70]}' for '{name}', which carries the source's row labels: after a sort / filter / rate "
+                                    f"change of the source the values land on other rows (label alignment)",
+                                    construct=f"cast stores caller value; {cv.name}: {name}={txt[:80]}"))
+            else:
+                insts.append(R.ok("C08.R8", "ConvertBase.cast.store", file, n.lineno,
+                                  idiom=f"caller values stored as passed; all {n_uses} call sites pass constants or label-free values"))
+        elif p == "foreign":
             insts.append(R.viol("C08.R8", "ConvertBase.cast.store", file, n.lineno,
                                 "a column of the caller's frame (its own row labels) is stored into the 0..n-1 indexed buffer: "
                                 "pandas aligns on labels, so any source whose labels are not 0..n-1 yields NaN / shifted rows",
